@@ -235,47 +235,123 @@ def monitors(check):
             check.violation("MON-PURE", f.qualname, "monitor '%s' %s: monitoring can perturb the trajectory" % (key, "; ".join(problems[:3])), f.loc(), key="impure")
         else:
             check.ok("MON-PURE", f.qualname, "monitor '%s' writes only the scratch residual, its own output and reads self.Qn through read-only calls" % key, f.loc())
-        # MON-RECORD: guarded append with it / time / value
-        apps = [n for n in ast.walk(f.node) if isinstance(n, ast.Call) and isinstance(n.func, ast.Attribute) and n.func.attr == "append"]
-        rec_ok = True
-        why = ""
-        if len(apps) != 1:
-            rec_ok, why = False, "%d append calls (expected 1)" % len(apps)
-        else:
-            ap = apps[0]
-            kws = {k.arg: unparse(k.value) for k in ap.keywords}
-            if kws.get("it") != "%s.totnit()" % sn:
-                rec_ok, why = False, "records it=%s, expected the cumulative iteration self.totnit()" % kws.get("it")
-            elif kws.get("time") != "%s._time" % sn:
-                rec_ok, why = False, "records time=%s, expected self._time" % kws.get("time")
-            elif "value" not in kws:
-                rec_ok, why = False, "no value recorded"
-            # guard
-            guard = None
-            for n in ast.walk(f.node):
-                if isinstance(n, ast.If) and any(ap is x for b in n.body for x in ast.walk(b)):
-                    t = n.test
-                    if (isinstance(t, ast.Compare) and len(t.ops) == 1 and isinstance(t.ops[0], ast.Eq)
-                            and isinstance(t.left, ast.BinOp) and isinstance(t.left.op, ast.Mod)
-                            and isinstance(t.comparators[0], ast.Constant) and t.comparators[0].value == 0):
-                        if unparse(t.left.left) == "%s.totnit()" % sn and "frequency" in unparse(t.left.right):
-                            guard = n
-                        elif guard is None:
-                            why = "guard tests %s %% ... (expected self.totnit() %% frequency)" % unparse(t.left.left)
-                    elif guard is None and isinstance(t, ast.Compare) and isinstance(t.left, ast.BinOp) and isinstance(t.left.op, ast.Mod):
-                        why = "guard is %s (expected self.totnit() %% frequency == 0)" % unparse(t)
-            if rec_ok and guard is None:
-                rec_ok = False
-                why = why or "append is not guarded by totnit() % frequency == 0"
-            # value computed from self.Qn
-            if rec_ok:
-                uses_qn = any(isinstance(n, ast.Attribute) and n.attr == "Qn" for n in ast.walk(f.node))
-                if not uses_qn:
-                    rec_ok, why = False, "value is not computed from the current state self.Qn"
+        # MON-RECORD: the record is (cumulative iteration, current time, value computed from self.Qn),
+        # appended exactly when the cumulative iteration is a multiple of the monitor's frequency.
+        # Decided on expressions with locals expanded and self-methods with a single return inlined,
+        # so keyword / positional arguments, a local holding the count, an early return instead of a
+        # nested if, or `_itstart + _nit` written out are all the same thing.
+        rec_ok, why = _mon_record(proj, tm, f)
         if rec_ok:
-            check.ok("MON-RECORD", f.qualname, "records (it=totnit(), time=_time, value from Qn) under totnit() %% frequency == 0", f.loc())
+            check.ok("MON-RECORD", f.qualname, "records (cumulative iteration, current time, value from Qn) exactly when the cumulative iteration is a multiple of the frequency", f.loc())
         else:
             check.violation("MON-RECORD", f.qualname, "monitor '%s': %s" % (key, why), f.loc(), key="record")
+
+
+def _mon_record(proj, tm, f):
+    from ..memo import MethodCtx
+    sn = f.params[0]
+    ctx = MethodCtx(proj, f, set())
+
+    def lin(e, depth=0):
+        """{attr: coef} linear form over attributes of self (+ '' constant), or None"""
+        e = ctx.expand1(e)
+        if isinstance(e, ast.Constant) and isinstance(e.value, (int, float)) and not isinstance(e.value, bool):
+            return {"": e.value} if e.value else {}
+        if isinstance(e, ast.Attribute) and isinstance(e.value, ast.Name) and e.value.id == sn:
+            return {e.attr: 1}
+        if isinstance(e, ast.Attribute) and isinstance(e.value, ast.Attribute) and isinstance(e.value.value, ast.Name) and e.value.value.id == sn:
+            return {"%s.%s" % (e.value.attr, e.attr): 1}
+        if isinstance(e, ast.Call) and isinstance(e.func, ast.Attribute) and isinstance(e.func.value, ast.Name) and e.func.value.id == sn and not e.args and depth < 3:
+            m = proj.resolve(tm, e.func.attr)
+            if m is not None:
+                rets = [st for st in m.node.body if not (isinstance(st, ast.Expr) and isinstance(st.value, ast.Constant))]
+                if len(rets) == 1 and isinstance(rets[0], ast.Return) and rets[0].value is not None:
+                    # the callee's self is this self
+                    sub = ast.parse(ast.unparse(rets[0].value).replace(m.params[0] + ".", sn + "."), mode="eval").body
+                    return lin(sub, depth + 1)
+            return None
+        if isinstance(e, ast.BinOp) and isinstance(e.op, (ast.Add, ast.Sub)):
+            a, b = lin(e.left, depth), lin(e.right, depth)
+            if a is None or b is None:
+                return None
+            out = dict(a)
+            for k2, v2 in b.items():
+                out[k2] = out.get(k2, 0) + (v2 if isinstance(e.op, ast.Add) else -v2)
+            return {k2: v2 for k2, v2 in out.items() if v2}
+        return None
+    cumul = lin(ast.parse("%s.totnit()" % sn, mode="eval").body)
+    if cumul is None:
+        cumul = {"_itstart": 1, "_nit": 1}
+    apps = [n for n in ast.walk(f.node) if isinstance(n, ast.Call) and isinstance(n.func, ast.Attribute) and n.func.attr == "append"
+            and not (isinstance(n.func.value, ast.Attribute) and isinstance(n.func.value.value, ast.Name) and n.func.value.value.id == sn)]
+    if len(apps) != 1:
+        return False, "%d record calls (expected 1)" % len(apps)
+    ap = apps[0]
+    mon = proj.cls("monitors.monitor") if proj.has_cls("monitors.monitor") else None
+    names = ["it", "time", "value"]
+    if mon is not None and proj.resolve(mon, "append") is not None:
+        names = proj.resolve(mon, "append").params[1:]
+    argv = dict(zip(names, ap.args))
+    for k2 in ap.keywords:
+        if k2.arg:
+            argv[k2.arg] = k2.value
+    if len(names) < 3 or any(nm not in argv for nm in names[:3]):
+        return False, "record call does not pass iteration, time and value"
+    if lin(argv[names[0]]) != cumul:
+        return False, "records it=%s, expected the cumulative iteration count (%s)" % (unparse(argv[names[0]]), " + ".join(sorted(cumul)))
+    lt = lin(argv[names[1]])
+    if lt not in ({"_time": 1}, {"Qn.time": 1}):
+        return False, "records time=%s, expected the current time of the run (self._time / self.Qn.time)" % unparse(argv[names[1]])
+    vexp = ctx.expand1(argv[names[2]])
+    if not any(isinstance(n, ast.Attribute) and n.attr in ("Qn", "residual") for n in ast.walk(vexp)):
+        return False, "value is not computed from the current state self.Qn"
+    # path condition of the record
+    def is_mod(t):
+        return isinstance(t, ast.BinOp) and isinstance(t.op, ast.Mod) and lin(t.left) == cumul and "frequency" in unparse(ctx.expand1(t.right))
+
+    def implies_multiple(t, taken):
+        """does (t is `taken`) imply  count % frequency == 0 ?"""
+        t = ctx.expand1(t)
+        if isinstance(t, ast.UnaryOp) and isinstance(t.op, ast.Not):
+            return implies_multiple(t.operand, not taken)
+        if is_mod(t):
+            return not taken                      # `if count % f:` is true for NON-multiples
+        if isinstance(t, ast.Compare) and len(t.ops) == 1 and is_mod(t.left) and isinstance(t.comparators[0], ast.Constant) and t.comparators[0].value == 0:
+            if isinstance(t.ops[0], ast.Eq):
+                return taken
+            if isinstance(t.ops[0], ast.NotEq):
+                return not taken
+        return False
+
+    def mentions_mod(t):
+        return any(is_mod(x) for x in ast.walk(ctx.expand1(t)))
+    found = [False]
+    wrong = [None]
+
+    def walk(stmts, conds):
+        conds = list(conds)
+        for st in stmts:
+            if any(ap is x for x in ast.walk(st)) and not isinstance(st, ast.If):
+                if any(implies_multiple(t, taken) for t, taken in conds):
+                    found[0] = True
+                for t, taken in conds:
+                    if mentions_mod(t) and not implies_multiple(t, taken):
+                        wrong[0] = unparse(t)
+                return True
+            if isinstance(st, ast.If):
+                if walk(st.body, conds + [(st.test, True)]) or walk(st.orelse, conds + [(st.test, False)]):
+                    return True
+                # early exit: the rest of the block runs only when the test failed
+                if st.body and isinstance(st.body[-1], (ast.Return, ast.Raise)) and not st.orelse:
+                    conds.append((st.test, False))
+            elif isinstance(st, (ast.For, ast.While, ast.With)):
+                if walk(st.body, conds):
+                    return True
+        return False
+    walk(f.node.body, [])
+    if not found[0]:
+        return False, ("the record is made when `%s` holds, which is not `cumulative iteration %% frequency == 0`" % wrong[0]) if wrong[0] else "the record is not conditional on cumulative iteration % frequency == 0"
+    return True, ""
 
 
 def nondet(check):
